@@ -18,6 +18,7 @@ SPEC = {
         "(no forget/ManuallyDrop/leak on a Popen holder); join/capture wait on the Popen they own; (d) "
         "Exec::communicate / Pipeline::communicate mark every stage detached before spawning."
         " Also: PopenConfig::default() is not detached."
+        " R12.8: no function waits for its child (by dropping the Popen, on any path) while its frame still holds a Communicator, a taken stdout/stderr or a pipe read end of that child (reported D15 in both capture()s)."
     ),
     "not_decided": "whether a particular child reacts to EOF / SIGPIPE; scheduling.",
     "trusted_base": ["rustc MIR and drop elaboration (fields/elements are dropped after the type's own Drop::drop, Vec elements in order)",
@@ -86,6 +87,7 @@ def elem_selector(t, holder):
 
 def run(ctx):
     prog = ctx.prog
+    held_read_ends(ctx)
     config_defaults(ctx, prog, 'R12.7', ['detached'])
     pd = prog.one("<popen::Popen as std::ops::Drop>::drop")
     T = M.Terms(pd)
@@ -285,6 +287,14 @@ def subterms(t):
     for x in rest:
         if isinstance(x, (tuple, frozenset)):
             yield from subterms(x)
+
+
+def held_read_ends(ctx):
+    # R12.8: a call that owns a Popen (join, capture, the stream adapters ...) never waits for its child — by dropping the Popen, on any
+    # path, the error paths included — while the same frame still holds the read ends of that child's output (a Communicator, a taken
+    # stdout/stderr, the read end of a pipe it made): "a child only blocked writing output nobody will read any more is released before the wait"
+    import c14
+    c14.no_read_end_held_across_wait(ctx, ctx.prog, "R12.8")
 
 
 def run_thorough(ctx):
